@@ -164,7 +164,11 @@ def cmd_check(prop, tier):
     if agg.harness:
         rc = max(rc, 2)
     samples = _sample_runs(prop, seed, tier)
-    _evidence(prop, tier, seed, agg, len(unlisted), known_hits, samples)
+    extra = None
+    if agg.sys_total:
+        extra = {"systematic_layer": {"words_over_EUR_up_to_length_6": agg.sys_total, "executed_exactly_as_intended": agg.sys_exact,
+                                      "note": "every word is executed once; an E whose candidate edits were all refused shortens the executed word"}}
+    _evidence(prop, tier, seed, agg, len(unlisted), known_hits, samples, extra)
     ev = agg.stats
     print(f"{prop} {tier}: runs={agg.runs} steps={agg.steps} wall={agg.wall:.1f}s own-evals={sum(v for k, v in ev.items() if k.startswith(prop + '.'))} distinct-cases={len(agg.cases)} aborts={agg.aborts} violations={len(unlisted)} known={sum(known_hits.values())}")
     return rc
